@@ -778,6 +778,150 @@ func (c *Ctx) cod4() {
 		}
 	}
 	bg.done(1, "size > c.bufr.Size()")
+	// what is waited for: the whole packet, or a full read buffer for a big
+	// PUBLISH — nothing less (the handlers rely on the topic, the packet
+	// identifier and, for the rest, the complete body being in c.peek)
+	pk := c.acc("COD-4", pp, "Peek(size|buffer-size);buffer-size-only-when-big")
+	isSizeCall := func(v ssa.Value) bool {
+		call, ok := stripConv(v).(*ssa.Call)
+		return ok && call.Call.StaticCallee() != nil && stdName(call.Call.StaticCallee()) == "(*bufio.Reader).Size"
+	}
+	var sizeVals []ssa.Value // the decoded remaining length: what is compared with Size()
+	for _, b := range pp.Blocks {
+		for _, ins := range b.Instrs {
+			if bo, ok := ins.(*ssa.BinOp); ok {
+				switch {
+				case isSizeCall(bo.Y) && !isSizeCall(bo.X):
+					sizeVals = append(sizeVals, stripConv(bo.X))
+				case isSizeCall(bo.X) && !isSizeCall(bo.Y):
+					sizeVals = append(sizeVals, stripConv(bo.Y))
+				}
+			}
+		}
+	}
+	// (a size variable captured by a function literal lives in a cell: loads of that cell are the size, too)
+	cellOf := func(v ssa.Value) ssa.Value {
+		u, ok := stripConv(v).(*ssa.UnOp)
+		if !ok || u.Op != token.MUL {
+			return nil
+		}
+		switch a := u.X.(type) {
+		case *ssa.Alloc:
+			return a
+		case *ssa.FreeVar:
+			fn := a.Parent()
+			for i, fv := range fn.FreeVars {
+				if fv == a {
+					for _, mc := range closureSites(fn) {
+						if i < len(mc.Bindings) {
+							return mc.Bindings[i]
+						}
+					}
+				}
+			}
+		}
+		return nil
+	}
+	kindOf := func(v ssa.Value) string {
+		v = stripConv(v)
+		if isSizeCall(v) {
+			return "buffer"
+		}
+		for _, sv := range sizeVals {
+			if v == sv {
+				return "size"
+			}
+			if cs := cellOf(sv); cs != nil {
+				if cellOf(v) == cs {
+					return "size"
+				}
+				// the path engine reads a cell as the value last stored in it
+				if refs := cs.Referrers(); refs != nil {
+					for _, r := range *refs {
+						if st, ok := r.(*ssa.Store); ok && st.Addr == cs && stripConv(st.Val) == v {
+							return "size"
+						}
+					}
+				}
+			}
+		}
+		return ""
+	}
+	for _, p := range c.Paths("COD-4", pp) {
+		choice := phiChoicesAll(p)
+		binds := pathBindings(p)
+		for i := range p.Events {
+			e := &p.Events[i]
+			if !isStd(e, "(*bufio.Reader).Peek") || e.Kind != pathx.KCall || len(e.Args) < 2 {
+				continue
+			}
+			arg := stripConv(e.Args[1])
+			for d := 0; d < 12; d++ {
+				if phi, ok := arg.(*ssa.Phi); ok {
+					if ch, ok := choice[phi]; ok {
+						arg = stripConv(ch)
+						continue
+					}
+				}
+				// the result of a helper or literal expanded in place
+				if b, ok := binds[arg]; ok && b != arg {
+					arg = stripConv(b)
+					continue
+				}
+				break
+			}
+			var kinds []string
+			if call, ok := arg.(*ssa.Call); ok && call.Call.StaticCallee() != nil && c.expandInPlace(pp, call.Call.StaticCallee()) {
+				// computed by a literal or helper ahead of this segment: whatever it can return
+				for _, b := range call.Call.StaticCallee().Blocks {
+					for _, ins := range b.Instrs {
+						if r, ok := ins.(*ssa.Return); ok && len(r.Results) == 1 {
+							kinds = append(kinds, kindOf(r.Results[0]))
+						}
+					}
+				}
+			} else if phi, ok := arg.(*ssa.Phi); ok {
+				for _, ed := range phi.Edges {
+					if ed != ssa.Value(phi) { // (the loop carries the value unchanged)
+						kinds = append(kinds, kindOf(ed))
+					}
+				}
+			} else {
+				kinds = []string{kindOf(arg)}
+			}
+			// is the packet known big / known to fit on this path?
+			big := 0
+			for _, cm := range assumed(p, 0, i) {
+				for _, k := range []cmp{cm, cm.swapped()} {
+					if isSizeCall(k.Y) && kindOf(k.X) == "size" {
+						switch k.Op {
+						case token.GTR:
+							big = 1
+						case token.LEQ:
+							big = -1
+						}
+					}
+				}
+			}
+			bad := ""
+			for _, k := range kinds {
+				switch {
+				case k == "":
+					bad = "neither the packet size nor the buffer size"
+				case k == "buffer" && big == -1:
+					bad = "the buffer size although the packet fits"
+				case k == "size" && big == 1:
+					bad = "the packet size although it exceeds the buffer (bufio reports ErrBufferFull)"
+				}
+			}
+			if bad == "" {
+				pk.pass()
+			} else {
+				pk.fail(p, i, "Peek waits for %s (%s): a handler can find less of the packet in c.peek than it is entitled to — the identifier behind a long topic, or the tail of a packet that fits", bad, Expr(arg))
+			}
+		}
+	}
+	pk.done(1, "every Peek asks for the decoded size, or for the buffer size on a path that found the packet bigger")
 	a.done(1, "the loop continues only while shift ≤ 14, so at most four length bytes are read")
 }
 
